@@ -2678,11 +2678,13 @@ func (data *Data) pruneIndexGroups(id uint64) error {
 	data.WalkDatabases(func(db *DatabaseInfo) {
 		db.WalkRetentionPolicy(func(rp *RetentionPolicyInfo) {
 			for idx := 0; idx < len(rp.IndexGroups); {
-				if id >= rp.IndexGroups[idx].Indexes[0].ID && id <= rp.IndexGroups[idx].Indexes[len(rp.IndexGroups[idx].Indexes)-1].ID {
-					pos := sort.Search(len(rp.IndexGroups[idx].Indexes), func(i int) bool {
-						return rp.IndexGroups[idx].Indexes[i].ID >= id
-					})
-					rp.IndexGroups[idx].Indexes[pos].MarkDelete = true
+				// the ids of a group are not contiguous once ExpandGroups appended indexes to it:
+				// look the id up instead of taking the first one that is not smaller
+				for pos := range rp.IndexGroups[idx].Indexes {
+					if rp.IndexGroups[idx].Indexes[pos].ID == id {
+						rp.IndexGroups[idx].Indexes[pos].MarkDelete = true
+						break
+					}
 				}
 				if rp.IndexGroups[idx].canDelete() {
 					rp.IndexGroups = append(rp.IndexGroups[:idx],
@@ -2704,11 +2706,13 @@ func (data *Data) pruneShardGroups(id uint64) error {
 			var endTime int64
 			deleteSg := false
 			for idx := 0; idx < len(rp.ShardGroups); {
-				if id >= rp.ShardGroups[idx].Shards[0].ID && id <= rp.ShardGroups[idx].Shards[len(rp.ShardGroups[idx].Shards)-1].ID {
-					pos := sort.Search(len(rp.ShardGroups[idx].Shards), func(i int) bool {
-						return rp.ShardGroups[idx].Shards[i].ID >= id
-					})
-					rp.ShardGroups[idx].Shards[pos].MarkDelete = true
+				// the ids of a group are not contiguous once ExpandGroups appended shards to it:
+				// look the id up instead of taking the first one that is not smaller
+				for pos := range rp.ShardGroups[idx].Shards {
+					if rp.ShardGroups[idx].Shards[pos].ID == id {
+						rp.ShardGroups[idx].Shards[pos].MarkDelete = true
+						break
+					}
 				}
 
 				if !rp.ShardGroups[idx].DeletedAt.IsZero() && rp.ShardGroups[idx].canDelete() {
